@@ -15,7 +15,7 @@ for j in $(seq 1 $N); do
   ( PROPS="${PROPS:-C01 C02 C03 C04 C05 C06 C07 C08 C09 C10 C11 C12 C13 C14 C15 C16 C17 C19}"
     while read d; do
       name=$(basename $d)
-      cd $W; git checkout -q -- .
+      cd $W; git checkout -q -- .; git clean -fdq
       if ! git apply --check $d/patch.diff 2>/dev/null; then echo "$name: PATCH DOES NOT APPLY"; continue; fi
       git apply $d/patch.diff 2>/dev/null
       res=""
@@ -24,7 +24,7 @@ for j in $(seq 1 $N); do
         if [ $rc -eq 1 ]; then res="$res $p:VIOL($(grep -o 'rule C[0-9]*\.R[0-9]*' /tmp/mp_${j}_$p.out | sort -u | sed 's/rule //' | tr '\n' ',' ))"; fi
         if [ $rc -eq 2 ]; then res="$res $p:ERR"; fi
       done
-      git checkout -q -- .
+      git checkout -q -- .; git clean -fdq
       echo "$name:$res"
     done < /tmp/mp_list_$j.txt > /tmp/mp_out_$j.txt 2>&1 ) &
 done
